@@ -46,8 +46,11 @@ MCDB = """CONSTANTS
   AllowDiscard = %(AllowDiscard)s
   WithReroute = %(WithReroute)s
   Rejoin = %(Rejoin)s
+  PrimaryAsync = %(PrimaryAsync)s
   ReportInMem = %(ReportInMem)s
   SkipPrecommitCheck = %(SkipPrecommitCheck)s
+  SkipPrecommitCheckBelowCommitted = %(SkipBelow)s
+  Script <- %(Script)s
   SkipReplicaAlhCheck = FALSE
   DiscardKeepsAllowance = %(DiscardKeepsAllowance)s
   RecordSched = %(RecordSched)s
@@ -63,10 +66,27 @@ T, F = "TRUE", "FALSE"
 
 
 def mcdb_cfg(**kw):
-    d = dict(MaxTx=2, MaxFail=1, MaxRestart=0, SyncRepl=T, Acks=1, AllowDiscard=T, WithReroute=T, Rejoin=T, ReportInMem=F, SkipPrecommitCheck=F,
+    d = dict(MaxTx=2, MaxFail=1, MaxRestart=0, SyncRepl=T, Acks=1, AllowDiscard=T, WithReroute=T, Rejoin=T, PrimaryAsync=F, ReportInMem=F, SkipPrecommitCheck=F, SkipBelow=F, Script="NoScript",
              DiscardKeepsAllowance=F, RecordSched=F, EmitDepth=0, inv="NoBad MCTypeOK StoreLevelInv", view="VIEW View\nSYMMETRY Sym")
     d.update(kw)
     return MCDB % d
+
+
+PREFIX = ["write:n1", "sync:n1", "report:n2", "export:n2", "handle:n2", "apply:n2:1", "sync:n2", "lose:n1", "promote:n3"]
+
+
+# a replica holds tx 1 durably, the primary committed it and the replica accepted the allowance (its own commit waits for the next sync)
+PREFIX_ALLOW = ["write:n1", "sync:n1", "report:n2", "export:n2", "handle:n2", "apply:n2:1", "sync:n2", "report:n2", "export:n2", "sync:n1", "handle:n2",
+                "report:n2", "export:n2", "handle:n2"]
+
+
+def script_module(steps):
+    """directed model checking: a module fixing the first steps of the behaviour (a replica holds a durable, uncommitted tx of the
+    primary; the primary is lost; the node that holds nothing is promoted), the rest is searched by TLC"""
+    def label(s):
+        f = s.split(":")
+        return "<<" + ", ".join(['"%s"' % f[0]] + f[1:]) + ">>"
+    return "---- MODULE MCReplicationDBScript ----\nEXTENDS MCReplicationDB\nCONSTANTS n1, n2, n3\nTheScript == <<%s>>\n====\n" % ", ".join(label(x) for x in steps)
 
 
 def sched_of(res, what):
@@ -103,8 +123,12 @@ def db_phase(chk, wd, out, binp):
     tlc_runs, notes = [], []
     out["tlc"], out["notes"] = tlc_runs, notes
 
-    def mc(name, workers=3, timeout=1500, extra=(), **kw):
-        r = vlib.run_tlc("MCReplicationDB", "mcdb.cfg", workers=workers, timeout=timeout, extra=list(extra), files=[("mcdb.cfg", mcdb_cfg(**kw))], tag="C07dbmc",
+    def mc(name, workers=3, timeout=1500, extra=(), script=None, **kw):
+        module, files = "MCReplicationDB", []
+        if script:
+            module, files = "MCReplicationDBScript", [("MCReplicationDBScript.tla", script_module(script))]
+            kw = dict(kw, Script="TheScript", RecordSched=T, view="VIEW View")
+        r = vlib.run_tlc(module, "mcdb.cfg", workers=workers, timeout=timeout, extra=list(extra), files=[("mcdb.cfg", mcdb_cfg(**kw))] + files, tag="C07dbmc",
                          javaopts=["-XX:ParallelGCThreads=2", "-XX:CICompilerCount=2"])   # many small JVMs on a shared box
         if r.error:
             raise MachineryFault("MCReplicationDB %s: %s" % (name, r.error))
@@ -140,10 +164,25 @@ def db_phase(chk, wd, out, binp):
         # weakened decisions must be caught by the guards (teeth), and give schedules that are replayed on the real code
         jobs["teeth report"] = ex.submit(mc, "teeth: replica advertises its in-memory precommit", ReportInMem=T, RecordSched=T, Rejoin=F, workers=1)
         jobs["teeth check"] = ex.submit(mc, "teeth: primary skips the precommit alh check", SkipPrecommitCheck=T, RecordSched=T, Rejoin=F, workers=1)
-        jobs["code allowance"] = ex.submit(mc, "code variant: a discard leaves the commit allowance", DiscardKeepsAllowance=T, RecordSched=T, Rejoin=F, workers=2)
+        jobs["code allowance"] = ex.submit(mc, "teeth: a discard leaves the commit allowance (the code before 5dff58a)", DiscardKeepsAllowance=T, RecordSched=T, Rejoin=F, workers=2,
+                                           script=None if thorough else PREFIX_ALLOW)
+        # the narrow gap: the precommitted alh is not compared when the replica's precommitted id is at or below the primary's committed tx.
+        # Directed search (scripted failover prefix, 3 txs): the deepest consequence - the replica commits the lost primary's transactions
+        jobs["teeth below sync"] = ex.submit(mc, "teeth: precommit check skipped at or below the primary's commit (sync, the rejoined old primary acks)", script=PREFIX,
+                                             MaxTx=3, SkipBelow=T, WithReroute=F, inv="NoForeignCommit", workers=2)
+        jobs["teeth below async"] = ex.submit(mc, "teeth: precommit check skipped at or below the primary's commit (primaries commit without acks)", script=PREFIX,
+                                              MaxTx=3, SkipBelow=T, WithReroute=F, Rejoin=F, PrimaryAsync=T, inv="NoForeignCommit", workers=1)
+        if thorough:
+            jobs["design below"] = ex.submit(mc, "design: same directed space (3 txs, failover prefix, rejoin), all guards", script=PREFIX, MaxTx=3, WithReroute=F, workers=2)
+            jobs["teeth below equal"] = ex.submit(mc, "teeth: precommit check skipped at or below the primary's commit (first false guard)", script=PREFIX,
+                                                  MaxTx=3, SkipBelow=T, WithReroute=F, workers=2)
+            jobs["design below async"] = ex.submit(mc, "design: primaries commit without acks, directed space", script=PREFIX, MaxTx=3, WithReroute=F, PrimaryAsync=T, workers=2)
         num = 60 if thorough else 12
         jobs["sim"] = ex.submit(mc, "simulated schedules", workers=1, MaxTx=5, MaxFail=2, MaxRestart=1, DiscardKeepsAllowance=T, RecordSched=T, EmitDepth=48,
                                 inv="Emit", view="", extra=["-simulate", "num=%d" % num, "-depth", "50", "-seed", str(chk.seed)])
+        # ... and walks that start after the failover with a tail holder left behind, the old primary already back as a replica
+        jobs["sim2"] = ex.submit(mc, "simulated schedules after a failover that leaves a precommitted tail behind", workers=1, script=PREFIX + ["write:n3", "write:n3", "sync:n3", "switch:n1:n3"],
+                                 MaxTx=5, MaxFail=1, MaxRestart=1, inv="Emit", EmitDepth=60, extra=["-simulate", "num=%d" % (num // 2), "-depth", "62", "-seed", str(chk.seed + 1)])
         res = {k: j.result() for k, j in jobs.items()}
         hrandom, out["repro"] = hjob.result(), rjob.result()
     for k, r in res.items():
@@ -161,14 +200,16 @@ def db_phase(chk, wd, out, binp):
         raise MachineryFault("MCReplicationDB: actions that never fire: %s (coverage %s)" % (dead, cov))
     out["coverage"] = cov
     schedules = []
-    for k in ("teeth report", "teeth check", "code allowance"):
+    for k in ("teeth report", "teeth check", "code allowance", "teeth below sync", "teeth below async", "teeth below equal"):
+        if k not in res:
+            continue
         r = res[k]
-        if r.violation != "NoBad":
+        if r.violation not in ("NoBad", "NoForeignCommit"):
             raise MachineryFault("MCReplicationDB %s has no counterexample (%s): the model lost its teeth" % (k, r.violation))
         steps, bad = sched_of(r, k)
-        schedules.append({"cfg": {"sync": True, "need": 1, "allowDiscard": True, "concurrency": 1, "syncFreqMs": [2000], "txs": 9}, "steps": steps, "origin": "tlc-counterexample:" + k,
-                          "expect": bad})
-    sims = vlib.printed_json(res["sim"].out)
+        schedules.append({"cfg": {"sync": True, "need": 1, "allowDiscard": True, "concurrency": 3, "syncFreqMs": [2000], "txs": 9, "primaryAsync": k.endswith("async")},
+                          "steps": steps, "origin": "tlc-counterexample:" + k, "expect": bad})
+    sims = vlib.printed_json(res["sim"].out) + vlib.printed_json(res["sim2"].out)
     seen = set()
     for b in sims:
         steps = [":".join(str(x) for x in s) for s in b["steps"]]
@@ -259,7 +300,9 @@ def db_fold(chk, out):
             "divergence detected (precommit)": "db:divergence-detected:precommit", "divergence detected (commit)": "db:divergence-detected:commit",
             "discard after divergence": "db:discard-events:replica", "allowance of a primary": "db:allowance-events:primary",
             "allowance accepted by a replica": "db:replica-allow", "commit on a replica": "db:commit-events:replica", "commit on a primary": "db:commit-events:primary",
-            "restart": "db:restart", "duplicated delivery": "db:duplicate-delivery"}
+            "restart": "db:restart", "duplicated delivery": "db:duplicate-delivery",
+            "export request of a replica whose diverged precommitted tail lies at or below the primary's committed tx": "db:export-request:diverged-precommit-tail-at-or-below-primary-commit",
+            "... strictly below (the primary echoes the replica's own alh)": "db:export-request:diverged-precommit-tail-at-or-below-primary-commit:strictly-below"}
     zero = [k for k, c in need.items() if not ctr.get(c)] if not out.get("replay") else []
     if zero:
         raise MachineryFault("c07db: vacuous run, no %s (counters %s)" % (zero, {k: v for k, v in ctr.items() if k.startswith("db:")}))
